@@ -61,13 +61,21 @@ TRUSTED = [
     "harness/c02.py + harness/dfgen.py (generator, plain-Python schema/position oracle, Coq literal printer)",
 ]
 ASSUMPTIONS = [
+    "the public == / != of TensorFrame are exercised only on frames whose target has no missing cell: C08, which owns "
+    "TensorFrame equality, restricts it to 'targets without missing values, operands of equal dtypes' (y is compared "
+    "without equal_nan); with unlabeled target rows equality is judged cell by cell, NaN matching NaN positionally",
     "column names are unique (a pandas frame with duplicated column names is outside the property)",
     "string-valued columns are held as object or str; pandas `category` dtype columns are outside the quantifier "
     "(value_counts lists unobserved categories with count 0, which would inflate the class count)",
     "relabel_invariant equates the columns INCLUDING the statistics the converter was given; that the statistics "
     "themselves do not depend on labels / column order is observed by the oracle (equal read_stats), not proved",
     "category tie order may depend on row order; all four materializations of a case have the same row order",
-    "column_perm_invariant is proved for the case that both conversions succeed; success transfer is observed",
+    "column_perm_invariant is proved for the case that both conversions succeed; success transfer is observed, and "
+    "is false in one corner of code and model alike (a tokenizer returning key-less dicts: Props/C02.v "
+    "column_perm_success_transfer_refuted, run against /repo as the `keyless` case)",
+    "later calls of the converter object (state = the dict _merge_feat rewrote): proved equal to the first call "
+    "whenever they succeed (later_call_equal_partial, converter_state_is_fixed_point); that they cannot raise and "
+    "the dictionary-valued text_tokenized block are observed (reconvert:* keys, check_tf_again in the correspondence)",
 ]
 
 LABEL_KINDS = ["offset", "perm", "string", "dup"]
@@ -152,9 +160,30 @@ def exhaustive_orders(rng):
     return out
 
 
+def run_keyless(case):
+    """The witness of Props/C02.v column_perm_success_transfer_refuted against the real code: a tokenizer that
+    returns dictionaries without keys (outside the property: nothing is demanded), in both column orders."""
+    import pandas as pd
+    import torch_frame
+    from torch_frame.config.text_tokenizer import TextTokenizerConfig
+    from torch_frame.data import Dataset
+    out = {"ok": True, "orders": {}}
+    for tag, order in (("tok-first", ["t", "x"]), ("num-first", ["x", "t"])):
+        df = pd.DataFrame({"t": ["a", "b"], "x": [1.0, 2.0]})[order]
+        c2s = {c: (torch_frame.text_tokenized if c == "t" else torch_frame.numerical) for c in order}
+        try:
+            Dataset(df, c2s, col_to_text_tokenizer_cfg=TextTokenizerConfig(
+                text_tokenizer=lambda xs: [{} for _ in xs], batch_size=None)).materialize()
+            out["orders"][tag] = True
+        except Exception as ex:
+            out["orders"][tag] = False
+            out[tag + "_exc"] = C.exc_name(ex)
+    return out
+
+
 def generate(rng, tier):
     n = 160 if tier == "quick" else 5000
-    cases = [gen_case(rng) for _ in range(n)]
+    cases = [gen_case(rng) for _ in range(n)] + [{"kind": "keyless"}]
     if tier == "thorough":
         cases += exhaustive_orders(rng)
     return cases
@@ -244,6 +273,8 @@ def materialize(eff, df, forms=None):
 
 
 def run(case):
+    if case.get("kind") == "keyless":
+        return run_keyless(case)
     eff = effective(case)
     obs = {"ok": True, "variants": {}, "again": {}}
     dfs, tfs, ds_a = {}, {}, None
@@ -261,9 +292,13 @@ def run(case):
             obs["variants"][tag] = dict(o, ok=True)
         except Exception as ex:
             obs["variants"][tag] = {"ok": False, "exc": C.exc_name(ex), "msg": str(ex)[:300], "tb": C.fmt_exc()}
-    # the public equality operators between the four materialized frames
+    # the public equality operators between the four materialized frames -- only where C08 (which owns TensorFrame
+    # equality) defines them: targets without missing values; with unlabeled target rows the frames are compared
+    # cell by cell (NaN matching NaN positionally) as everywhere else in this oracle
     obs["eq"] = {}
-    for tag in ("A", "B", "C", "D"):
+    tcol = next((c for c in eff["cols"] if c["name"] == eff["target"]), None)
+    eq_defined = tcol is None or all(v is not None for v in tcol["cells"])
+    for tag in (("A", "B", "C", "D") if eq_defined else ()):
         if "A" in tfs and tag in tfs:
             try:
                 obs["eq"][tag] = [bool(tfs["A"] == tfs[tag]), bool(tfs[tag] == tfs["A"]), bool(tfs["A"] != tfs[tag])]
@@ -339,6 +374,8 @@ def feat_shape(feat):
 def oracle(case, obs):
     if "harness_exc" in obs:
         return dict(key="harness-exc", what=obs["harness_exc"], tb=obs.get("tb"))
+    if case.get("kind") == "keyless":
+        return None
     eff = effective(case)
     V = obs["variants"]
     sts = sorted({c["stype"] for c in eff["cols"]})
@@ -374,13 +411,9 @@ def oracle(case, obs):
         if isinstance(r, dict):
             return dict(key=f"operator-eq-raises:{r['exc']}", what=f"tensor_frame == tensor_frame raised {r['exc']}: {r['msg']}")
         if r != [True, True, False]:
-            tcol = next((c for c in eff["cols"] if c["name"] == eff["target"]), None)
-            nan_y = tcol is not None and tcol["stype"] == "numerical" and any(v is None for v in tcol["cells"])
             wh = "the materialized frame itself" if tag == "A" else "the frame materialized with " + what[tag]
-            return dict(key="tensorframe-eq-nan-target" if nan_y else f"operator-eq:{kind}",
-                        what=f"(A == X, X == A, A != X) = {r} for X = {wh}; equal DataFrames must give equal TensorFrames"
-                             + (" (y holds NaN for an unlabeled row: TensorFrame.__eq__ compares y without equal_nan, "
-                                "features with it)" if nan_y else ""))
+            return dict(key=f"operator-eq:{kind}",
+                        what=f"(A == X, X == A, A != X) = {r} for X = {wh}; equal DataFrames must give equal TensorFrames")
     sz = A.get("sizes")
     if sz and (sz["len_tf"] != eff["n"] or sz["num_rows"] != eff["n"] or sz["ds_num_rows"] != eff["n"] or sz["len_ds"] != eff["n"]
                or sz["num_cols"] != len(eff["cols"]) - (1 if eff["target"] else 0)):
@@ -499,6 +532,8 @@ def text_seen(col, cell):
 
 # ------------------------------------------------------------------ shrinking, evidence
 def shrink(case):
+    if case.get("kind") == "keyless":
+        return
     fr = case["frame"]
     cols = fr["cols"]
     for k, c in enumerate(cols):
@@ -525,6 +560,8 @@ def shrink(case):
 
 
 def nontrivial_sig(case, obs):
+    if case.get("kind") == "keyless":
+        return json.dumps(["keyless", obs.get("orders")])
     if not obs.get("variants", {}).get("A", {}).get("ok"):
         return None
     fr = case["frame"]
@@ -544,6 +581,9 @@ def stats(cases, obss):
          "with_children": 0, "total": 0}
     for c, o in zip(cases, obss):
         if c is None:
+            continue
+        if c.get("kind") == "keyless":
+            d["keyless_witness"] = (o or {}).get("orders")
             continue
         d["total"] += 1
         fr = c["frame"]
@@ -628,6 +668,11 @@ def coq_obs(eff, variant):
 
 
 def coq_term(case, obs):
+    if case.get("kind") == "keyless":
+        o = obs.get("orders", {})
+        f = "(MkFrame [0%nat; 1%nat] {})"
+        return (f"(Bool.eqb (converts Nat.eqb None {f.format('keyless_cols')}) {C.cbool(bool(o.get('tok-first')))} && "
+                f"Bool.eqb (converts Nat.eqb None {f.format('(rev keyless_cols)')}) {C.cbool(bool(o.get('num-first')))})")
     V = obs.get("variants", {})
     if not all(V.get(t, {}).get("ok") for t in "ABCD"):
         return None
@@ -639,6 +684,14 @@ def coq_term(case, obs):
         v = V[tag]
         fr = coq_frame(eff, v, parsed, v["labels"], v["columns"])
         parts.append(f"check_tf pval_eqb {tgt} {fr} {coq_obs(eff, v)}")
+    # the model's later calls of the same converter object vs the later conversions observed
+    fra = coq_frame(eff, V["A"], parsed, V["A"]["labels"], V["A"]["columns"])
+    # ("same-2" is the 5th later call; by converter_state_is_fixed_point it is the same computation as the 2nd)
+    for tag, k in (("same", 1), ("same-2", 2)):
+        ag = obs.get("again", {}).get(tag)
+        if ag and ag.get("ok"):
+            pseudo = dict(V["A"], tf=ag["tf"])
+            parts.append(f"check_tf_again pval_eqb {tgt} {fra} {k}%nat {coq_obs(eff, pseudo)}")
     if eff["target"] is not None:
         a = V["A"]
         col = next(c for c in eff["cols"] if c["name"] == eff["target"])
@@ -680,6 +733,8 @@ def sanity(cases, obss):
     for k in M.missing_forms(d, extra=["cfg=single", "cfg=dict"]):
         if k != "path=True":
             probs.append(f"signature form {k} never drawn")
+    if d.get("keyless_witness") != {"tok-first": False, "num-first": True}:
+        probs.append(f"the key-less tokenizer witness behaves differently from Props/C02.v: {d.get('keyless_witness')}")
     if d.get("eq_operator_uses", 0) == 0:
         probs.append("TensorFrame == never exercised")
     for k in ("numerical/first", "numerical/last", "numerical/all", "categorical/first", "categorical/last"):
